@@ -537,6 +537,15 @@ func (f *followingQuery) Select(t iterator) NodeNavigator {
 				}
 			} else {
 				var q *descendantQuery // descendant query
+				if node.NodeType() == AttributeNode && node.MoveToParent() {
+					// The children of the attribute's element (and their descendants)
+					// follow the attribute in document order.
+					q = &descendantQuery{
+						Input:     &contextQuery{},
+						Predicate: f.Predicate,
+					}
+					t.Current().MoveTo(node)
+				}
 				f.iterator = func() NodeNavigator {
 					for {
 						if q == nil {
